@@ -2,7 +2,6 @@
 #[cfg(feature = "serde1")]
 use serde::{Deserialize, Serialize};
 
-use crate::dist::Uniform;
 use crate::impl_display;
 use crate::traits::*;
 use num::{Bounded, FromPrimitive, Integer, Saturating, ToPrimitive, Unsigned};
@@ -170,7 +169,8 @@ impl Geometric {
         X: Unsigned + Integer + FromPrimitive + Bounded,
         R: Rng,
     {
-        let u: f64 = Uniform::new(0.0, 1.0).unwrap().draw(rng);
+        // u in (0, 1): u = 0 would give ceil(0) - 1 = -1 and hence X::MAX
+        let u: f64 = rng.sample(rand_distr::Open01);
         X::from_f64((1.0 - u).log(1.0 - p).ceil() - 1.0)
             .unwrap_or_else(X::max_value)
     }
@@ -191,7 +191,12 @@ impl Geometric {
 
         while u > sum {
             prod *= q;
-            sum += prod;
+            let next = sum + prod;
+            if next == sum {
+                // the partial sums have converged below u in floating point
+                break;
+            }
+            sum = next;
             t = t.saturating_add(X::one());
         }
         t
